@@ -110,13 +110,11 @@ PL = 'prysm.polynomials.laguerre.'
 PD = 'prysm.polynomials.dickson.'
 
 _seq_harness('jacobi_seq/sweep', PJ + 'jacobi_seq', JAC, 2, dict(cur='Pn', prev='Pnm1', dead=('Pnm2', 'A', 'B', 'C')), variants=['scalar'])
-_seq_harness('jacobi_seq/sweep-arrays', PJ + 'jacobi_seq', JAC, 2, dict(cur='Pn', prev='Pnm1', dead=('Pnm2', 'A', 'B', 'C')), variants=['1d', '2d'],
-             tiers=('thorough',))
+# (array-coordinate variants of the jacobi_seq / laguerre_seq sweeps were tried in the thorough tier: each needs more than an hour of
+# path exploration, so they are served by the bounded harness variants jacobi_seq-arrays / laguerre_seq-arrays instead)
 _seq_harness('hermite_He_seq/sweep', PH + 'hermite_He_seq', HE, 0, dict(cur='Pnm1', prev='Pnm2', also_cur=('Pn',)))
 _seq_harness('hermite_H_seq/sweep', PH + 'hermite_H_seq', HH, 0, dict(cur='Pnm1', prev='Pnm2', also_cur=('Pn',)))
 _seq_harness('laguerre_seq/sweep', PL + 'laguerre_seq', LAG, 1, dict(cur='Ln', prev='Lnm1', dead=('n', 'A', 'B'), also_cur=('Lnp1',)), variants=['scalar'])
-_seq_harness('laguerre_seq/sweep-arrays', PL + 'laguerre_seq', LAG, 1, dict(cur='Ln', prev='Lnm1', dead=('n', 'A', 'B'), also_cur=('Lnp1',)),
-             variants=['1d', '2d'], tiers=('thorough',))
 _seq_harness('dickson1_seq/sweep', PD + 'dickson1_seq', DICK1, 1, dict(cur='Pnm1', prev='Pnm2', also_cur=('Pn',), jname='j'))
 _seq_harness('dickson2_seq/sweep', PD + 'dickson2_seq', DICK2, 1, dict(cur='Pnm1', prev='Pnm2', also_cur=('Pn',), jname='j'))
 
@@ -149,6 +147,11 @@ def cheby_seq(v):
     if kind in (2, 4):
         L = Int('L', 1)
         ns = Array('ns', (L,), 'i', lo=0)
+        if MODE != 'symbolic':
+            # the callee jacobi_seq requires strictly ascending orders (its contract's precondition); the modular symbolic proof
+            # does not depend on the order, the concrete runs go through the real callee and must respect it
+            import numpy as _np
+            ns[:] = _np.cumsum(1 + ns % 3) - 1
         get_n = lambda j: elem(ns, j)
     else:
         ns, L = AscendingInts('ns', 0)
@@ -219,7 +222,7 @@ def xy_seq_terms(v):
 
 
 @harness('C08', 'bounded/two-index-and-Q-families', kind='bounded',
-         variants=['zernike_nm_seq', 'Q2d_seq', 'Qbfs_seq', 'zernike_nm_der_seq', 'jacobi_der_seq', 'laguerre_seq-arrays'],
+         variants=['zernike_nm_seq', 'Q2d_seq', 'Qbfs_seq', 'zernike_nm_der_seq', 'jacobi_der_seq', 'laguerre_seq-arrays', 'jacobi_seq-arrays'],
          fuc=['prysm.polynomials.zernike.zernike_nm_seq', 'prysm.polynomials.qpoly.Q2d_seq', 'prysm.polynomials.qpoly.Qbfs_seq',
               'prysm.polynomials.zernike.zernike_nm_der_seq'])
 def bounded_seq(which):
@@ -284,6 +287,10 @@ def bounded_seq(which):
         if which == 'Qbfs_seq':
             seq = get('prysm.polynomials.qpoly.Qbfs_seq')(ns, np.abs(x))
             one = [get('prysm.polynomials.qpoly.Qbfs')(n, np.abs(x)) for n in ns]
+        elif which == 'jacobi_seq-arrays':
+            a, b = float(rng.uniform(-0.9, 3)), float(rng.uniform(-0.9, 3))
+            seq = get('prysm.polynomials.jacobi.jacobi_seq')(ns, a, b, x)
+            one = [get('prysm.polynomials.jacobi.jacobi')(n, a, b, x) for n in ns]
         elif which == 'jacobi_der_seq':
             a, b = float(rng.uniform(-0.9, 3)), float(rng.uniform(-0.9, 3))
             seq = get('prysm.polynomials.jacobi.jacobi_der_seq')(ns, a, b, x)
